@@ -754,7 +754,13 @@ macro_rules! map {
             //
             // This is a set of $key rather than Path to avoid the possibility that a key type
             // parses two paths of different values to the same key value.
+            #[cfg(not(darling_verif))]
             let mut seen_keys = HashSet::with_capacity($nested.len());
+            #[cfg(darling_verif)]
+            let mut seen_keys = HashSet::with_capacity_and_hasher(
+                $nested.len(),
+                crate::verif::SeamBuildHasher::default(),
+            );
 
             // The map to return in the Ok case. Its size will always be exactly nested.len(),
             // since otherwise ≥1 field had a problem and the entire map is dropped immediately
